@@ -314,6 +314,7 @@ type vReplayer struct {
 	content  map[telem.TimeStamp][]byte // start -> expected bytes (harness shadow), nil after a delete
 	cnt      vCounters
 	findings []vResult
+	drifted  bool
 }
 
 func (r *vReplayer) gen(nUnits int) []byte {
@@ -475,6 +476,32 @@ func (r *vReplayer) step(i int, st vStep) *vMismatch {
 		}
 	}
 
+	// a failed call leaves all committed data unchanged and readable
+	unchanged := func() *vMismatch {
+		r.cnt.FailedOpsChecked++
+		if len(before) != len(after) {
+			return &vMismatch{"verdict", "unchanged", i, "failed call leaves pointers " + vFmtPtrs(c, before), vFmtPtrs(c, after)}
+		}
+		for k := range before {
+			if before[k] != after[k] {
+				return &vMismatch{"verdict", "unchanged", i, "failed call leaves pointers " + vFmtPtrs(c, before), vFmtPtrs(c, after)}
+			}
+			r.cnt.BytesCompared += len(doms[k].data)
+			if !bytes.Equal(beforeDoms[k].data, doms[k].data) {
+				return &vMismatch{"verdict", "unchanged", i, fmt.Sprintf("failed call leaves bytes of domain %d = %v", k, beforeDoms[k].data), fmt.Sprint(doms[k].data)}
+			}
+		}
+		return nil
+	}
+	if r.drifted {
+		// the abstract state already differs from the specification's (reported as
+		// drift): only the clauses that need no specification are still judged
+		if got != "ok" {
+			return unchanged()
+		}
+		return nil
+	}
+
 	// ---- class of the call ----
 	if st.Dev {
 		// named deviation Window_BackwardsAtRollover: the specification (= code as
@@ -518,20 +545,9 @@ func (r *vReplayer) step(i int, st vStep) *vMismatch {
 		}
 	}
 
-	// ---- a failed call leaves all committed data unchanged and readable ----
 	if got != "ok" {
-		r.cnt.FailedOpsChecked++
-		if len(before) != len(after) {
-			return &vMismatch{"verdict", "unchanged", i, "failed call leaves pointers " + vFmtPtrs(c, before), vFmtPtrs(c, after)}
-		}
-		for k := range before {
-			if before[k] != after[k] {
-				return &vMismatch{"verdict", "unchanged", i, "failed call leaves pointers " + vFmtPtrs(c, before), vFmtPtrs(c, after)}
-			}
-			r.cnt.BytesCompared += len(doms[k].data)
-			if !bytes.Equal(beforeDoms[k].data, doms[k].data) {
-				return &vMismatch{"verdict", "unchanged", i, fmt.Sprintf("failed call leaves bytes of domain %d = %v", k, beforeDoms[k].data), fmt.Sprint(doms[k].data)}
-			}
+		if m := unchanged(); m != nil {
+			return m
 		}
 	}
 
@@ -665,6 +681,14 @@ func vReplayOneInner(c vCfg, hist []vStep, prog *atomic.Int64) (res vResult, cnt
 			m = r.step(i, st)
 		}()
 		if m != nil {
+			if m.kind == "drift" && m.clause != "harness" && m.clause != "harness-panic" && !r.drifted {
+				r.drifted = true
+				res = vResult{R: "mismatch", Kind: m.kind, Clause: m.clause, Step: m.step, Exp: m.exp, Act: m.act}
+				continue
+			}
+			if m.kind == "drift" && r.drifted {
+				break // keep the first drift
+			}
 			if m.kind != "stop" {
 				res = vResult{R: "mismatch", Kind: m.kind, Clause: m.clause, Step: m.step, Exp: m.exp, Act: m.act}
 			}
